@@ -69,6 +69,10 @@ func txRunJob(job txJob, transact func(context.Context, func(*sql.Tx) error) err
 				case "ctxerr":
 					cbErr = true
 					return fmt.Errorf("remote call failed: %w", context.DeadlineExceeded)
+				case "txdone":
+					// wraps sql.ErrTxDone of another, already finished transaction handle: this one is as open as ever
+					cbErr = true
+					return fmt.Errorf("stale handle of an earlier transaction: %w", sql.ErrTxDone)
 				case "panic":
 					panic("boom")
 				case "cancel":
